@@ -45,7 +45,7 @@ class Playing:
         self.cardp = args[1]
         # trick-cards role: the list the played card is appended to in play_card
         cands = set()
-        for p in self.summ.paths(BASE, 'play_card'):
+        for p in self.summ.paths(BASE, 'play_card', allow_truncated=True):
             for e in p.events:
                 if e.kind == 'call' and e.method in ('append', 'insert') and any(ast.unparse(a) == self.cardp for a in e.args):
                     rn = ast.parse(e.recv, mode='eval').body
@@ -168,6 +168,9 @@ class Playing:
             v = ev3(fm, pe.truth)
             if v is not None and v != c.polarity:
                 return False
+        if p.truncated:
+            raise AnalysisError('paths', 'loop bound', f'`{ast.unparse(p.end[2])[:50]}` runs more often than the path summariser unrolls '
+                                                       'in a state the rule evaluates')
         return True
 
     @staticmethod
